@@ -1,7 +1,10 @@
 (* C18 -- tuples and anonymous components are desugared completely and
    faithfully.  Property theorems only: each is closed by [exact] of a lemma of
-   Proofs.Desugar{Proofs,Metas,Total,Refine,Alpha,AlphaInj,FunIff}, followed by Print Assumptions.  All
-   statements of DESIGN §4 C18 are theorems here; nothing is left open. *)
+   Proofs.Desugar{Proofs,Metas,Total,Refine,Alpha,AlphaInj,FunIff}, followed by Print Assumptions.  The
+   statements of DESIGN §4 C18 about the desugarer are theorems here.  NOT covered by any theorem (listed
+   as open statements in the evidence, lib/props/C18.py OPEN): equality of the FINDINGS with those of the
+   hand-written expansion, the parser's share of the sugar, which message an invalid use gets and where,
+   and the dimensions of the recorded ports. *)
 From Coq Require Import ZArith NArith List Bool String.
 Require Import Model.Ast Model.Desugar Spec.ExpandSpec Spec.RenameSpec Proofs.DesugarProofs Proofs.DesugarMetas Proofs.DesugarTotal Proofs.DesugarRefine Proofs.DesugarAlpha Proofs.DesugarAlphaInj Proofs.DesugarFunIff.
 Import ListNotations.
@@ -204,10 +207,16 @@ Print Assumptions C18_desugar_accepts_iff.
    an [f] that sends a generated name onto a name of the body (`A_2_22` to `a`), or
    two generated names onto one, satisfies the hypothesis as well, and then [ren_s f]
    merges variables (C18_example_merging_renaming below).  The alpha reading needs
-   the injectivity hypothesis of the next two theorems. *)
+   the injectivity hypothesis of the next two theorems.
+   Since /repo f58b98e a loop has a counter exactly when a component array declared for
+   its own body is dimensioned by the counter - a decision by NAME.  A renaming that
+   sends another name (say the counter of a nested loop) onto the image of a loop's
+   counter changes that decision, so all three renaming theorems carry the hypothesis
+   "no other name is identified with a loop counter". *)
 Theorem C18_expand_spec_commutes_with_renaming :
   forall (f : string -> string) sig_of comp_name counter_name body,
     fixes_names f body ->
+    (forall m k x, counter_name m = Some k -> f x = f k -> x = k) ->
     expand_spec sig_of (fun id m => option_map f (comp_name id m)) (fun m => option_map f (counter_name m)) body =
     option_map (ren_s f) (expand_spec sig_of comp_name counter_name body).
 Proof. exact expand_spec_naming_independent. Qed.
@@ -224,6 +233,7 @@ Print Assumptions C18_expand_spec_commutes_with_renaming.
 Theorem C18_expand_spec_alpha_renaming :
   forall (f : string -> string) sig_of comp_name counter_name scope body b,
     fixes_names f body ->
+    (forall m k x, counter_name m = Some k -> f x = f k -> x = k) ->
     expand_spec sig_of comp_name counter_name body = Some b ->
     inj_on f (scope ++ stmt_names b) ->
     expand_spec sig_of (fun id m => option_map f (comp_name id m)) (fun m => option_map f (counter_name m)) body
@@ -246,6 +256,7 @@ Theorem C18_desugar_is_expand_up_to_alpha :
     Forall wf_node (stmt_exprs (Block m l)) ->
     Forall short_node (sub_stmts (Block m l)) ->
     fixes_names f (Block m l) ->
+    (forall mm k x, name_opt lib "anon_var" mm = Some k -> f x = f k -> x = k) ->
     desugar_template (env_of ts) lib (Block m l) = DOk b ->
     inj_on f (scope ++ stmt_names b) ->
     expand_spec (sig_table ts) (fun id mm => option_map f (name_opt lib id mm))
@@ -332,6 +343,13 @@ Example C18_example_fixes_names : fixes_names ex_f ex_body.
 Proof.
   unfold fixes_names. vm_compute. intros x H.
   repeat (destruct H as [<-|H]; [reflexivity|]). destruct H.
+Qed.
+
+Example C18_example_counters_separate :
+  forall (m : meta) k x, (fun _ : meta => Some "k") m = Some k -> ex_f x = ex_f k -> x = k.
+Proof.
+  intros m k x E. inversion E; subst. unfold ex_f. cbn [String.eqb Ascii.eqb Bool.eqb].
+  destruct (String.eqb_spec x "A_2_22") as [->|Hne]; [discriminate | auto].
 Qed.
 
 (* ... and [ex_f] meets the injectivity hypothesis of the alpha theorems on the
